@@ -11,6 +11,7 @@ import Nlmodel.Model.Pipeline
 import Nlmodel.Proofs.Lemmas.VMErrors
 import Nlmodel.Proofs.Lemmas.ParseFuel
 import Nlmodel.Proofs.Lemmas.NoFuel
+import Nlmodel.Proofs.C02
 namespace Nl
 namespace C05
 
@@ -138,6 +139,38 @@ theorem C05_eval_never_fuel (cc : CharClass) (budget : Nat) (src : Text) (out : 
         rcases C05_run_error_kinds _ _ _ _ _ hrun with h | h | h <;> cases h
       | budget s => simp
       | fault site => simp
+
+/-- THE PROPERTY ON THE MODEL, IN FULL: for EVERY text and EVERY instruction budget, `eval` answers with a value,
+    with one of the five documented error kinds (syntax, reference, type, index, argument), or with "the
+    instruction budget is used up" (a loop or recursion the program itself spells out is still running) —
+    never with a machine fault (`C02_eval_text_never_faults`: the compiler's output always passes the verified
+    checker), never with the model-only `FUEL` (`C05_eval_never_fuel`), never with anything else. -/
+theorem C05_eval_is_value_or_documented_error (cc : CharClass) (budget : Nat) (src : Text) :
+    (∃ t out, evalText cc budget src = .value t out) ∨
+    (∃ e out, evalText cc budget src = .error e out ∧
+      (e = .syntax ∨ e = .reference ∨ e = .type ∨ e = .index ∨ e = .argument)) ∨
+    evalText cc budget src = .budget := by
+  cases h : evalText cc budget src with
+  | value t out => exact Or.inl ⟨t, out, rfl⟩
+  | error e out =>
+    refine Or.inr (Or.inl ⟨e, out, rfl, ?_⟩)
+    cases e with
+    | fuel => exact absurd h (C05_eval_never_fuel cc budget src out)
+    | «syntax» => simp
+    | reference => simp
+    | type => simp
+    | index => simp
+    | argument => simp
+  | fault site => exact absurd h (C02.C02_eval_text_never_faults cc budget src site)
+  | budget => exact Or.inr (Or.inr rfl)
+  | unspec =>
+    exfalso
+    unfold evalText at h
+    split at h
+    · cases h
+    · split at h
+      · cases h
+      · split at h <;> cases h
 
 end C05
 end Nl
